@@ -64,6 +64,60 @@ CHECKS.update({
                "finite value is reported.", "DESIGN.md §4 C05"),
 })
 
+
+_FAM = ("Exact oracle mc/exactlp.py (rational simplex validated against brute-force vertex enumeration at run start); "
+        "data values limited to the family menus; tolerance 1e-6.")
+CHECKS.update({
+    "C06": _mc("bounded exhaustive input family x request shapes vs. exact LP on an independently knocked-out copy",
+               "Family F with gene-rule assignments (distinct, shared, nested, isozymes) x single/double gene/reaction deletion "
+               "requests (None, ids, objects, reversed, equal/disjoint/overlapping lists) x fba / linear moma (reference given or "
+               "default) + find_essential_* + knockout accessor; exactly one row per unordered combination with the exact "
+               "knocked-out optimum / NaN+status.", _FAM + " Linear MOMA growth must lie in the exact objective range over "
+               "minimal-adjustment solutions. processes=1 here; schedules are C14.", "DESIGN.md §4 C06"),
+    "C07": _mc("explicit-state closure per rule shape over knock-out states with a truth-table oracle",
+               "For every and/or rule tree (<=3 leaves over 3 genes; thorough <=4 over 4) the closure of (knocked genes, knocked "
+               "reactions) states under Gene.knock_out, knock_out_model_genes (every subset as ids/objects/indices) and "
+               "Reaction.knock_out, plus every context block around one or two operations; bounds, functional flags, solver "
+               "columns and returned lists checked after every step.",
+               "Independent evaluator mc/ref_gpr.py; states re-established through public setters.", "DESIGN.md §4 C07"),
+    "C08": _mc("bounded exhaustive enumeration of expression trees x spellings x identifiers; oracle = the generated tree",
+               "All and/or trees up to 4 leaves x 5 spellings, every leaf position x 56 awkward identifiers (all keywords, leading "
+               "digits, . - : / quotes =), text/copy/pickle/symbolic round trips, == implies equivalence pairwise, remove_genes "
+               "for every gene subset in both modes.", "Mixed &/| with and/or without parentheses and backslash are outside the "
+               "property.", "DESIGN.md §4 C08"),
+    "C09": _mc("bounded exhaustive input family vs. exact LP / exhaustive binary enumeration of the documented formulation",
+               "Feasible family members x objectives x pfba (fractions, objective/reactions forms), linear MOMA, ROOM (MILP by "
+               "subset enumeration), linear ROOM x references (FBA, pFBA, default, re-ordered) x knock-out states.",
+               _FAM + " Finite bounds; quadratic MOMA not covered (no QP solver).", "DESIGN.md §4 C09"),
+    "C10": _mc("bounded exhaustive feature product + corpus; validator, content equality, idempotence, independent libsbml extraction",
+               "Feature-product models (ids, bounds, objective, rules, groups, notes, annotations, names) with <=1 feature off "
+               "default x {path, handle, string}, all feature pairs, f_replace={}, Configuration bounds; every shipped SBML file; "
+               "third-party document shapes (single and all pairs) derived with libsbml and compared with an independent "
+               "extraction under log capture.", "libsbml reader/validator trusted; numbers compared to 15 significant digits.",
+               "DESIGN.md §4 C10"),
+    "C11": _mc("bounded exhaustive feature product x formats x options; content equality and idempotence",
+               "Feature-product models x {json str/path/handle+pretty, yaml str/path, dict, pickle} x sort on/off x Configuration "
+               "bounds; loading must not raise, content equal, second round trip identity, dict not consumed.",
+               "gene functional flags/groups are not part of the dict formats (not in the property's list).", "DESIGN.md §4 C11"),
+    "C17": _mc("bounded exhaustive input family (members with internal cycles) vs. exact LP cycle-removal test and sign patterns",
+               "Family members whose internal reactions have a non-trivial null space x every single-reaction objective x starting "
+               "vectors (own FBA solution, every optimal vertex with the cycle loaded) for loopless_solution; add_loopless optimum "
+               "vs. brute-force loop-free optimum.", _FAM + " Finite bounds.", "DESIGN.md §4 C17"),
+    "C18": _mc("explicit-state closure over medium assignments + bounded exhaustive family vs. exact LP / subset enumeration",
+               "All reachable bound states of a bench with export-, import- and reversibly-written exchanges (plus demand and "
+               "sink) under all 64 medium assignments; minimal_medium on family members (both spellings) x targets x exports x "
+               "open_exchanges x minimize_components: None iff infeasible, sufficiency, minimal total import / cardinality.",
+               _FAM + " Forced import excluded (property undefined).", "DESIGN.md §4 C18"),
+    "C19": _mc("bounded exhaustive input family vs. exact FVA of the flux cone",
+               "Family members with bounds including zero x reaction_list (None, singles, pairs; ids) x open_exchanges x "
+               "objectives (must not matter) for find_blocked_reactions; fastcc returns exactly the non-blocked reactions "
+               "unchanged and leaves its input unchanged.", _FAM, "DESIGN.md §4 C19"),
+    "C20": _mc("bounded exhaustive input family x solutions x fva forms; recomputation from the Solution passed in",
+               "Family members with >=2 boundary reactions (flipped spellings, doubled coefficients) x solutions (default pFBA, "
+               "FBA, optimal vertices wrapped in Solution) x fva (None, 0.9, 1.0, frame) x model/metabolite/reaction summaries: "
+               "membership, side, flux, ranges, totals, percentages, rendering.", _FAM, "DESIGN.md §4 C20"),
+})
+
 NOT_YET = {}
 
 props = [json.loads(l) for l in open(os.path.join(ROOT, "properties.jsonl"))]
